@@ -812,6 +812,12 @@ def _lin(e: ast.expr) -> Optional[Tuple[int, int]]:
     return None
 
 
+def _is_inf(e: ast.expr) -> bool:
+    if isinstance(e, ast.Attribute) and e.attr in ("inf", "infty", "Inf") and (attr_chain(e.value) or "") in ("np", "numpy", "math"):
+        return True
+    return isinstance(e, ast.Call) and (attr_chain(e.func) or "") == "float" and len(e.args) == 1 and isinstance(e.args[0], ast.Constant) and str(e.args[0].value).lower() in ("inf", "+inf", "infinity")
+
+
 def _rejects_at_boundary(test: ast.expr) -> Optional[bool]:
     """Value of a rejecting condition at the boundary of the relation it guards: every compared quantity equal (q), or - when
     one quantity is compared with zero / a tolerance - that quantity at zero. Sides are linear forms in q and a small positive
@@ -824,6 +830,17 @@ def _rejects_at_boundary(test: ast.expr) -> Optional[bool]:
         if any(v is None for v in vals):
             return None
         return any(vals) if isinstance(test.op, ast.Or) else all(vals)
+    if isinstance(test, ast.Compare) and len(test.ops) > 1:
+        # a chain is the conjunction of its links: 'not 0 < x < np.inf'
+        terms = [test.left, *test.comparators]
+        vals = [_rejects_at_boundary(ast.Compare(left=terms[i], ops=[op], comparators=[terms[i + 1]])) for i, op in enumerate(test.ops)]
+        return None if any(v is None for v in vals) else all(vals)
+    if isinstance(test, ast.Compare) and len(test.ops) == 1 and (_is_inf(test.left) or _is_inf(test.comparators[0])):
+        # a finite quantity against infinity: not the boundary the message speaks of, the link simply holds (or simply does not)
+        if _is_inf(test.left) and _is_inf(test.comparators[0]):
+            return None
+        upper = _is_inf(test.comparators[0])
+        return {ast.Lt: upper, ast.LtE: upper, ast.Gt: not upper, ast.GtE: not upper, ast.Eq: False, ast.NotEq: True}.get(type(test.ops[0]))
     if isinstance(test, ast.Compare) and len(test.ops) == 1:
         a, b = _lin(test.left), _lin(test.comparators[0])
         if a is None or b is None:
@@ -848,4 +865,19 @@ def perpendicular_scale_free(repo: Repo) -> RuleRun:
 perpendicular_scale_free.rule_id = "C20.PERPENDICULAR-SCALE-FREE"
 
 
-RULES = [one_sided_tol, one_sided_range, guard_eval, guard_table, lifecycle_state, signed_magnitude, message_strictness, perpendicular_scale_free]
+def coplanar_scale_free(repo: Repo) -> RuleRun:
+    """'[Faces whose four points are] not coplanar [are rejected when the check is asked for]' - for a face of any size: the guard that
+    raises '... not coplanar' compares the triple product of three edge vectors (a volume, degree 3 in the size of the face) with
+    something of the same degree, not with the plain tolerance."""
+    from ..dims import perpendicular_guards_rule
+
+    return perpendicular_guards_rule(
+        repo, PROP, "C20.COPLANAR-SCALE-FREE", floor=1, words=("coplanar",),
+        example="Face([[0,0,0],[s,0,0],[s,s,s],[0,s,0]], check_coplanar=True) with s = 1e-3, a corner lifted by 45 degrees",
+    )
+
+
+coplanar_scale_free.rule_id = "C20.COPLANAR-SCALE-FREE"
+
+
+RULES = [one_sided_tol, one_sided_range, guard_eval, guard_table, lifecycle_state, signed_magnitude, message_strictness, perpendicular_scale_free, coplanar_scale_free]
